@@ -126,12 +126,16 @@ class Baton:
 class VLock:
     """Drop-in for threading.Lock inside a Baton run."""
 
-    def __init__(self, baton):
+    def __init__(self, baton, reentrant=False):
         self.baton, self.owner = baton, None
         self.acquisitions = 0
+        self.reentrant, self.depth = reentrant, 0
 
     def acquire(self, blocking=True, timeout=-1):
         me = threading.get_ident()
+        if self.reentrant and self.owner == me:
+            self.depth += 1
+            return True
         while self.owner is not None:
             if not blocking:
                 return False
@@ -141,6 +145,9 @@ class VLock:
         return True
 
     def release(self):
+        if self.reentrant and self.depth:
+            self.depth -= 1
+            return
         self.owner = None
         b = self.baton
         with b.cv:
